@@ -28,7 +28,7 @@ TIERS = {
     "quick": dict(main=dict(MaxR=3, MaxC=3, MaxDepth=2), tip=dict(MaxR=5, MaxC=5, MaxDepth=2),
                   vec=dict(MaxN=6, MaxDepth=2), export_every=4, minor_every=1, workers=8, record=(40, 9, 40)),
     "thorough": dict(main=dict(MaxR=4, MaxC=4, MaxDepth=3), tip=dict(MaxR=6, MaxC=6, MaxDepth=3),
-                     vec=dict(MaxN=8, MaxDepth=3), export_every=16, minor_every=5, workers=12,
+                     vec=dict(MaxN=8, MaxDepth=3), export_every=16, minor_every=8, workers=12,
                      record=(250, 9, 60)),
 }
 MAJOR = "Float64,Real64,Int,Float32"
@@ -39,7 +39,8 @@ ESSENTIAL_OPS = ["Dims", "At", "ConstAt", "Row", "Col", "ConstRow", "ConstCol", 
                  "String", "Table", "MarshalJSON", "Export", "Equals", "Clone", "Mnorm", "MaddM.a/same", "MaddM.b/other",
                  "MdotM.a/same", "MdotM.b/same", "MdotM.r/same", "MdotV/same", "VdotM/same", "Outer.r/same", "Reset",
                  "SetIdentity", "Set.r/same", "Set.from/other", "Map", "Reduce", "Swap", "PermuteRows", "JointIterator/same",
-                 "Variables", "ResetDerivatives", "MagicWord", "ConstSlice", "Jacobian", "Hessian"]
+                 "Variables", "ResetDerivatives", "MagicWord", "ConstSlice", "Jacobian", "Hessian", "WriteZerosThenObserve",
+                 "IteratorWriteThrough"]
 
 
 def consts(d, emit, slices=True):
@@ -217,7 +218,8 @@ def run(ctx):
     ctx.extra["bounds"] = {"main": T["main"], "tip_family": T["tip"], "vector_family": T["vec"],
                            "recorded": dict(histories=T["record"][0], max_dim=T["record"][1], max_calls=T["record"][2]),
                            "element_types": ALL.split(","), "storage": ["dense", "sparse"],
-                           "value_patterns": ["f (all cells distinct, non-zero)", "z (cells 1,3,4,8,10,15,.. zero)"],
+                           "value_patterns": ["f (all cells distinct, non-zero)", "z (cells 1,3,4,8,10,15,.. zero)",
+                                              "s (sparse only: the values of z, zero elements explicitly stored - set to 0, cleared with Reset(), touched through At())"],
                            "export_every_nth_instance": T["export_every"],
                            "types_Real32_Int8_Int16_Int32_Int64_on_every_nth_case": T["minor_every"]}
     ctx.assumptions.append("AsVector/AsConstVector: compared as a multiset (matrix.go: 'the order is unspecified')")
